@@ -246,6 +246,7 @@ class SimLoop(asyncio.SelectorEventLoop):
         self.idle = False           # nothing will ever happen again
         self.after_step_hook = None
         self.io_events = 0
+        self.idle_jumps = 0         # clock jumps because nothing was runnable
 
     def time(self):
         return self.sim.now
@@ -314,6 +315,7 @@ class SimLoop(asyncio.SelectorEventLoop):
                 self.idle = True
                 self._stopping = True
                 return
+            self.idle_jumps += 1
             sim.advance_to(t)
             if sim.capped:
                 self._stopping = True
